@@ -50,6 +50,8 @@ Section Taffy.
 
   Definition t_is_none (s : TStyle T) : bool := bf_is_none (ts_bf s).
   Definition t_visible_absolute (s : TStyle T) : bool := bf_visible_absolute (ts_bf s).
+  (* what a parent may read of an out-of-flow child's style: its grid placement lines (only a grid parent does) *)
+  Definition t_lines (s : TStyle T) : PB.Ln PB.GP * PB.Ln PB.GP := (ts_row s, ts_column s).
 
   Definition grid_alg_t : TStyle T -> list (TStyle T) -> FIn T -> Engine.Alg (FIn T) (LayoutOutput T) (FLay T) :=
     style_comap (GStyle T) (TStyle T) (FIn T) (LayoutOutput T) (FLay T) to_gstyle grid_alg.
